@@ -1172,9 +1172,12 @@ def normalize_aliases(tree: ast.Module, _depth: int = 0) -> int:
         if isinstance(e, ast.Subscript):
             # d['k'] or d[n] with n a plain name (checked below like the other names: not rebound after the alias is taken)
             return selector(e.value) and isinstance(e.slice, (ast.Constant, ast.Name))
+        if isinstance(e, ast.Call) and isinstance(e.func, ast.Name) and e.func.id == 'len' and len(e.args) == 1 and not e.keywords:
+            # `n = len(xs)` computed once and reused: for a container the function does not change, the same number every time
+            return isinstance(e.args[0], ast.Name) and e.args[0].id not in _mutated[0]
         return False
 
-    MUTATORS = {'pop', 'clear', 'update', 'setdefault', 'popitem', 'insert', 'remove', 'sort', 'reverse', 'append', 'extend', '__setitem__', '__delitem__'}
+    MUTATORS = {'pop', 'clear', 'update', 'setdefault', 'popitem', 'insert', 'remove', 'sort', 'reverse', 'append', 'extend', 'add', 'discard', '__setitem__', '__delitem__'}
 
     def container_rewritten(fn: ast.AST, v: ast.AST) -> bool:
         """For an alias of `base[name]`: is `base[...]` stored to, or `base` mutated by a method, anywhere in fn (nested functions included)?"""
@@ -1186,7 +1189,31 @@ def normalize_aliases(tree: ast.Module, _depth: int = 0) -> int:
                 if isinstance(x, ast.Call) and isinstance(x.func, ast.Attribute) and x.func.attr in MUTATORS and ast.dump(x.func.value) == b:
                     return True
         return False
+    # `push, pop = stack.append, stack.pop`: one binding per name (selectors only: nothing is evaluated, so order is immaterial)
+    if _depth == 0:
+        for holder in ast.walk(tree):
+            for fld in ('body', 'orelse', 'finalbody'):
+                b = getattr(holder, fld, None)
+                if not (isinstance(b, list) and b and isinstance(b[0], ast.stmt)):
+                    continue
+                i = 0
+                while i < len(b):
+                    st = b[i]
+                    if isinstance(st, ast.Assign) and len(st.targets) == 1 and isinstance(st.targets[0], ast.Tuple) and isinstance(st.value, ast.Tuple) \
+                            and len(st.targets[0].elts) == len(st.value.elts) and all(isinstance(t, ast.Name) for t in st.targets[0].elts) \
+                            and all(selector(v) and not isinstance(v, ast.Name) for v in st.value.elts) \
+                            and not ({t.id for t in st.targets[0].elts} & {x.id for v in st.value.elts for x in ast.walk(v) if isinstance(x, ast.Name)}):
+                        parts = [ast.copy_location(ast.Assign(targets=[t], value=v), st) for t, v in zip(st.targets[0].elts, st.value.elts)]
+                        b[i:i + 1] = parts
+                        i += len(parts)
+                        continue
+                    i += 1
+    _mutated: List[Set[str]] = [set()]
     for fn in [x for x in ast.walk(tree) if isinstance(x, FUNC)]:
+        _mutated[0] = {x.func.value.id for x in ast.walk(fn) if isinstance(x, ast.Call) and isinstance(x.func, ast.Attribute) and x.func.attr in MUTATORS
+                       and isinstance(x.func.value, ast.Name)} | \
+            {x.value.id for x in ast.walk(fn) if isinstance(x, ast.Subscript) and isinstance(x.ctx, (ast.Store, ast.Del)) and isinstance(x.value, ast.Name)} | \
+            {x.target.id for x in ast.walk(fn) if isinstance(x, ast.AugAssign) and isinstance(x.target, ast.Name)}
         stores: Dict[str, int] = {}
         loop_t: Dict[str, int] = {}
         binds: Dict[str, List[ast.AST]] = {}
@@ -1212,6 +1239,17 @@ def normalize_aliases(tree: ast.Module, _depth: int = 0) -> int:
             if all((stores.get(b, 0) == 0) or (b not in params and stores.get(b, 0) == 1) or (stores.get(b, 0) == loop_t.get(b, 0)) for b in base) and not any(b in alias for b in base) \
                     and not container_rewritten(fn, v):
                 alias[k] = v
+        # a name bound more than once (`rhs = rule.rhs` ... and, on the error path, `rhs = ' '.join(...)`): the loads that only the
+        # selector binding reaches are read through (reaching definitions on the function's CFG)
+        for k, bs in binds.items():
+            if stores.get(k, 0) <= 1 or k in params or k in alias:
+                continue
+            sels = [b for b in bs if selector(b.value) and not isinstance(b.value, ast.Name)
+                    and all((stores.get(x, 0) == 0) or (x not in params and stores.get(x, 0) == 1) or (stores.get(x, 0) == loop_t.get(x, 0))
+                            for x in [y.id for y in ast.walk(b.value) if isinstance(y, ast.Name)])
+                    and k not in {y.id for y in ast.walk(b.value) if isinstance(y, ast.Name)} and not container_rewritten(fn, b.value)]
+            if sels:
+                n_sub += _flow_alias(fn, k, sels)
         # nested functions that rebind the alias name are left alone (free uses inside them are not touched at all)
         if not alias:
             continue
@@ -1254,6 +1292,58 @@ def normalize_aliases(tree: ast.Module, _depth: int = 0) -> int:
         if _depth < 3:
             # an alias of an alias (`ps = table[n]; put = ps.append`): the first pass rewrote the second binding's right-hand side
             n_sub += normalize_aliases(tree, _depth + 1)
+    return n_sub
+
+
+def _flow_alias(fn: ast.AST, k: str, sels: List[ast.Assign]) -> int:
+    """Replace the loads of `k` in fn's own body that are reached by exactly one definition, a selector binding from `sels`."""
+    from .cfg import CFG
+    from .guards import assigned_names
+    try:
+        cfg = CFG(fn.body)
+    except Exception:
+        return 0
+    defs = {n for n, nd in cfg.nodes.items() if nd.kind in ('stmt', 'for', 'with') and nd.stmt is not None and k in assigned_names(nd.stmt)}
+    sel_nodes = {cfg.node_of(b): b for b in sels if cfg.node_of(b) is not None}
+    IN: Dict[int, Set[int]] = {n: set() for n in cfg.nodes}
+    OUT: Dict[int, Set[int]] = {n: set() for n in cfg.nodes}
+    changed = True
+    while changed:
+        changed = False
+        for n in cfg.nodes:
+            i = set()
+            for p_, _ in cfg.pred[n]:
+                i |= OUT[p_]
+            o = {n} if n in defs else i
+            if i != IN[n] or o != OUT[n]:
+                IN[n], OUT[n] = i, o
+                changed = True
+    n_sub = 0
+    for n, nd in cfg.nodes.items():
+        if len(IN[n]) != 1 or next(iter(IN[n])) not in sel_nodes:
+            continue
+        val = sel_nodes[next(iter(IN[n]))].value
+        if nd.kind == 'test':
+            roots = [nd.expr] if nd.expr is not None and not isinstance(nd.stmt, getattr(ast, 'Match', ())) else []
+        elif nd.kind == 'for':
+            roots = [nd.stmt.iter]
+        elif nd.kind == 'with':
+            roots = [i.context_expr for i in nd.stmt.items]
+        elif nd.kind in ('stmt', 'return', 'raise', 'assert') and nd.stmt is not None and not isinstance(nd.stmt, (ast.FunctionDef, ast.AsyncFunctionDef, ast.ClassDef, ast.If, ast.While, ast.For, ast.Try, ast.With)):
+            roots = [nd.stmt]
+        else:
+            roots = []
+        for root in roots:
+            for holder in ast.walk(root):
+                if isinstance(holder, (ast.Lambda, ast.FunctionDef)):
+                    continue
+                for fld, v in ast.iter_fields(holder):
+                    if isinstance(v, ast.Name) and isinstance(v.ctx, ast.Load) and v.id == k:
+                        setattr(holder, fld, ast.copy_location(copy.deepcopy(val), v)); n_sub += 1
+                    elif isinstance(v, list):
+                        for i, x in enumerate(v):
+                            if isinstance(x, ast.Name) and isinstance(x.ctx, ast.Load) and x.id == k:
+                                v[i] = ast.copy_location(copy.deepcopy(val), x); n_sub += 1
     return n_sub
 
 
